@@ -507,6 +507,10 @@ def mk_ite(cond, a: Frac, b: Frac) -> Frac:
             return mk_fn("max", d, ZERO)
         if b.is_zero() and a == -d:
             return mk_fn("max", -d, ZERO)
+        # (abs(x) if x < 0 else 0) == max(-x, 0)
+        sa = _single_atom(a)
+        if b.is_zero() and sa is not None and sa[0] == "fn" and sa[1] == "abs" and len(sa) == 3 and (sa[2] == d or sa[2] == -d):
+            return mk_fn("max", -d, ZERO)
 
     return Frac.atom(("ite", cond, a, b))
 
